@@ -204,12 +204,15 @@ def case_from_json(j):
 
 
 # ---------------------------------------------------------------------- monitors
-def is_placeholder(result_list):
+def is_placeholder(result_list, tokens=None):
     if len(result_list) != 1:
         return False
     t = result_list[0].tree
     try:
-        return t.is_leaf and t.token.get('word') == 'FAILED' and len(t.token) == 1 and str(t.cat) == 'NP'
+        if tokens is not None and len(tokens) >= 1 and t.is_leaf and t.token is tokens[0]:
+            return False            # a leaf over the sentence's own first token is a parse, not the placeholder
+        # the explicit failure placeholder: one leaf over a token that carries nothing but a word (its spelling is not prescribed)
+        return t.is_leaf and list(t.token) == ['word'] and t.cat.is_atomic
     except Exception:
         return False
 
@@ -272,7 +275,7 @@ def check_sentence(E, case, si, out, oracle_budget=40000, witness=None, nbest_re
         R.count('oracle:budget-exceeded')
         return summary
     R.count('oracle:best-computed')
-    placeholder = is_placeholder(res)
+    placeholder = is_placeholder(res, out['doc'][si])
     summary['parsed'] = not placeholder
     summary['beam_excludes'] = beam_excludes
     summary['has_derivation'] = best_must is not None
